@@ -90,3 +90,13 @@ CLAIMED["C19"] = dict(
         "args.c option parsing is outside.")
 for _p in ("C17", "C18", "C19"):
     NOT_APPLICABLE.pop(_p, None)
+CLAIMED["C02"] = dict(
+   text="Encoder-side container fields are executed symbolically and parsed by independent, specification-derived parsers "
+        "(spec/xzspec.h): Stream Header/Footer for every flags value, VLI encoding for all 63-bit values (single-call and "
+        "resumable), Block Header for every lzma_block the size function accepts (1-2 filters, symbolic options), the "
+        "LZMA2 dictionary-size byte for all 2^32 sizes, LZMA1 properties, Index encoding incl. output slicing, and the "
+        "bound functions' arithmetic for all 64-bit sizes.",
+   note="OUTSIDE: validity of the LZMA/LZMA2 payload bits and 'an independent decoder recovers the input' (needs the LZMA "
+        "symbol coder: measured no verdict); chains of 3-4 filters; headers above 32 bytes; sufficiency of the bound for "
+        "real compressed data.")
+NOT_APPLICABLE.pop("C02", None)
